@@ -10,7 +10,7 @@ for i, n in enumerate(NAMES):
     for mode in ('64', '32'):
         k = len(HARNESSES)
         HARNESSES.append(Harness('x86any', 'h_any%s_%s' % (mode, n), unwind=72, timeout=1800, mem_gb=6, bounds=B % (n, mode),
-                                 tiers=('quick', 'thorough'), rotate=(k % 11, 11), validate_runs=300))
+                                 tiers=('quick', 'thorough'), validate_runs=300))
 HARNESSES.append(Harness('x86any', 'h_any64_lea_d8_region', unwind=72, timeout=1200, mem_gb=8, tiers=('quick', 'thorough'), validate_runs=100,
                          bounds='lea r, [label + disp] with disp within 256 of INT32_MIN/INT32_MAX (region of the fixed defect D8: must now be refused or encoded exactly)'))
 HARNESSES.append(Harness('x86any', 'h_any64_add_kf_D4', unwind=72, timeout=1200, mem_gb=6, known='D4', tiers=('quick', 'thorough'), validate_runs=100,
